@@ -65,8 +65,7 @@ Proof.
 Qed.
 Lemma parser_nofatal : ops_nofatal parser_ops.
 Proof.
-  split; [|split]; simpl; try discriminate.
-  intros s e. destruct (e_err e); simpl; try discriminate. destruct (e_json e); discriminate.
+  split; [|split]; simpl; discriminate.
 Qed.
 Lemma limit_nofatal : forall lim, ops_nofatal (limit_ops lim).
 Proof.
@@ -369,8 +368,8 @@ Definition panic_ops : ops := mkOps (fun s e => (s, e, CbPanic)) (fun s _ => (s,
 Lemma tamepanic_needed : ~ nofault_node (wrap_node_gen false true panic_ops).
 Proof. intros [H _]. exact (H false st0 (MBatch [err_entry]) eq_refl). Qed.
 (* without the drainer a failing stage abandons its upstream *)
-Lemma stage_drainer_needed : ~ good_node (wrap_node_gen true false parser_ops).
-Proof. intros H. apply (H false st0 (MBatch [mkE 1 0 0 EOk false])). reflexivity. Qed.
+Lemma stage_drainer_needed : ~ good_node (wrap_node_gen true false (agg_ops 0 1 1)).
+Proof. intros H. apply (H false st0 (MBatch [err_entry])). reflexivity. Qed.
 (* an encoder that returns at the error entry without draining abandons the pipeline *)
 Lemma encoder_drain_needed : ~ good_node (enc_node_gen false EncStreams).
 Proof. intros H. apply (H false st0 (MBatch [err_entry])). reflexivity. Qed.
